@@ -3,7 +3,7 @@ import json, os, random, re
 from vlib import core
 
 PROP = "C17"
-WORDS = ["copy", "the file", "50% done", "use --force", "path/to", "a (b)", "x", "verbose mode", "%s %d", "~", "né"]
+WORDS = ["copy", "the file", "50% done", "use --force", "path/to", "a (b)", "x", "verbose mode", "%s %d", "~", "naive"]
 TYPES = ["bool", "string", "int", "float", "strings", "ints", "floats"]
 
 
